@@ -514,10 +514,12 @@ fn lexical_c14(rep: &mut Report, rng: &mut Rng, o: &Opts) {
         } else if i % 9 == 0 {
             // nested unary / fixed-arity compounds directly inside each other (constructors that might normalise)
             let x = g.term(rng, 3);
+            // built from the variants directly: a constructor that normalises must not hide the shape from the check
+            let neg = |t: Term| Term::Negation(Box::new(t));
             match i % 27 {
-                0 => Term::new_negation(Term::new_negation(x)),
-                9 => Term::new_negation(Term::new_negation(Term::new_negation(x))),
-                _ => Term::new_difference_extension(Term::new_negation(Term::new_negation(x.clone())), x),
+                0 => neg(neg(x)),
+                9 => neg(neg(neg(x))),
+                _ => Term::DifferenceExtension(Box::new(neg(neg(x.clone()))), Box::new(x)),
             }
         } else {
             g.term(rng, 0)
